@@ -73,3 +73,18 @@ Proofs/MonC12.vos Proofs/MonC12.vok Proofs/MonC12.required_vos: Proofs/MonC12.v 
 Properties/C12.vo Properties/C12.glob Properties/C12.v.beautified Properties/C12.required_vo: Properties/C12.v Model.vo Mon/C12.vo Proofs/Trace.vo Proofs/InvNames.vo Proofs/MonC12.vo
 Properties/C12.vio: Properties/C12.v Model.vio Mon/C12.vio Proofs/Trace.vio Proofs/InvNames.vio Proofs/MonC12.vio
 Properties/C12.vos Properties/C12.vok Properties/C12.required_vos: Properties/C12.v Model.vos Mon/C12.vos Proofs/Trace.vos Proofs/InvNames.vos Proofs/MonC12.vos
+Mon/C15.vo Mon/C15.glob Mon/C15.v.beautified Mon/C15.required_vo: Mon/C15.v Sem.vo Spec/Tables.vo
+Mon/C15.vio: Mon/C15.v Sem.vio Spec/Tables.vio
+Mon/C15.vos Mon/C15.vok Mon/C15.required_vos: Mon/C15.v Sem.vos Spec/Tables.vos
+Proofs/Driver.vo Proofs/Driver.glob Proofs/Driver.v.beautified Proofs/Driver.required_vo: Proofs/Driver.v Model.vo Spec/Tables.vo Mon/C15.vo
+Proofs/Driver.vio: Proofs/Driver.v Model.vio Spec/Tables.vio Mon/C15.vio
+Proofs/Driver.vos Proofs/Driver.vok Proofs/Driver.required_vos: Proofs/Driver.v Model.vos Spec/Tables.vos Mon/C15.vos
+Properties/C15.vo Properties/C15.glob Properties/C15.v.beautified Properties/C15.required_vo: Properties/C15.v Model.vo Spec/Tables.vo Mon/C15.vo Proofs/Driver.vo
+Properties/C15.vio: Properties/C15.v Model.vio Spec/Tables.vio Mon/C15.vio Proofs/Driver.vio
+Properties/C15.vos Properties/C15.vok Properties/C15.required_vos: Properties/C15.v Model.vos Spec/Tables.vos Mon/C15.vos Proofs/Driver.vos
+Properties/C16.vo Properties/C16.glob Properties/C16.v.beautified Properties/C16.required_vo: Properties/C16.v Model.vo Proofs/Driver.vo
+Properties/C16.vio: Properties/C16.v Model.vio Proofs/Driver.vio
+Properties/C16.vos Properties/C16.vok Properties/C16.required_vos: Properties/C16.v Model.vos Proofs/Driver.vos
+Properties/C17.vo Properties/C17.glob Properties/C17.v.beautified Properties/C17.required_vo: Properties/C17.v Model.vo Proofs/Driver.vo
+Properties/C17.vio: Properties/C17.v Model.vio Proofs/Driver.vio
+Properties/C17.vos Properties/C17.vok Properties/C17.required_vos: Properties/C17.v Model.vos Proofs/Driver.vos
